@@ -526,6 +526,10 @@ pub enum ItOp {
     Next,
     NextBack,
     Len,
+    /// Iterator::nth(k) (what skip / step_by are built on): k + 1 items are taken, fewer at the end
+    Nth(u8),
+    /// internal iteration over the rest through by_ref(): 0 count, 1 last, 2 for_each, 3 sum, 4 skip(k).next()
+    Rest(u8),
 }
 
 #[derive(Debug, Clone, Serialize, Deserialize)]
@@ -584,6 +588,44 @@ fn run_iter(c: &IterCase) -> CaseResult {
                 }
                 v.label_if(matches!(op, ItOp::NextBack), "next_back");
             }
+            ItOp::Nth(k) => {
+                let before = plain.len() as u64;
+                let (a, b) = (it.nth(*k as usize), plain.nth(*k as usize));
+                ensure!(a == b, "transparency", "{ctx}: wrapped yielded {a:?}, plain {b:?}");
+                yielded += before - plain.len() as u64;
+                if a.is_none() {
+                    exhausted = true;
+                }
+                v.label("nth");
+            }
+            ItOp::Rest(kind) => {
+                let before = plain.len() as u64;
+                match kind % 5 {
+                    0 => ensure!(it.by_ref().count() == plain.by_ref().count(), "transparency", "{ctx}: count() differs"),
+                    1 => ensure!(it.by_ref().last() == plain.by_ref().last(), "transparency", "{ctx}: last() differs"),
+                    2 => {
+                        let (mut a, mut b) = (vec![], vec![]);
+                        it.by_ref().for_each(|x| a.push(x));
+                        plain.by_ref().for_each(|x| b.push(x));
+                        ensure!(a == b, "transparency", "{ctx}: for_each saw {a:?} vs {b:?}");
+                    }
+                    3 => ensure!(it.by_ref().sum::<u32>() == plain.by_ref().sum::<u32>(), "transparency", "{ctx}: sum() differs"),
+                    _ => {
+                        let (a, b) = (it.by_ref().skip(2).next(), plain.by_ref().skip(2).next());
+                        ensure!(a == b, "transparency", "{ctx}: skip(2).next() differs");
+                        if a.is_some() {
+                            yielded += before - plain.len() as u64;
+                            v.label("skip");
+                        }
+                    }
+                }
+                if kind % 5 != 4 || plain.len() == 0 && before < 3 {
+                    // the rest was consumed to the end (the adaptor has seen the inner None)
+                    yielded += before - plain.len() as u64;
+                    exhausted = true;
+                }
+                v.label("internal_iteration");
+            }
             ItOp::Len => {
                 // (size_hint is not forwarded by the adaptor; only the explicitly implemented len() is compared)
                 ensure!(it.len() == plain.len(), "transparency", "{ctx}: len() differs");
@@ -612,6 +654,31 @@ fn run_iter(c: &IterCase) -> CaseResult {
     Ok(v)
 }
 
+fn decode_iter(u: &mut FuzzInput) -> IterCase {
+    let n = u.n(29) as u16;
+    let l = |u: &mut FuzzInput| if u.bool() { Some(u.n(39) as u16) } else { None };
+    let wrap = match u.n(4) {
+        0 => Wrap::Progress,
+        1 => Wrap::ProgressCount(u.n(39) as u16),
+        2 => Wrap::ProgressWith(l(u)),
+        3 => Wrap::TryProgress,
+        _ => Wrap::WrapIter(l(u)),
+    };
+    let finish = u.n(4) as u8;
+    let drain = u.bool();
+    let mut ops = vec![];
+    while !u.empty() && ops.len() < 40 {
+        ops.push(match u.n(16) {
+            0..=7 => ItOp::Next,
+            8..=11 => ItOp::NextBack,
+            12 | 13 => ItOp::Len,
+            14 | 15 => ItOp::Nth(u.n(5) as u8),
+            _ => ItOp::Rest(u.n(4) as u8),
+        });
+    }
+    IterCase { n, wrap, finish, ops, drain }
+}
+
 fn iter_strategy(_t: Tier) -> BoxedStrategy<IterCase> {
     let wrap = prop_oneof![
         Just(Wrap::Progress),
@@ -620,7 +687,7 @@ fn iter_strategy(_t: Tier) -> BoxedStrategy<IterCase> {
         Just(Wrap::TryProgress),
         proptest::option::of(0u16..40).prop_map(Wrap::WrapIter),
     ];
-    let op = prop_oneof![4 => Just(ItOp::Next), 2 => Just(ItOp::NextBack), 1 => Just(ItOp::Len)];
+    let op = prop_oneof![8 => Just(ItOp::Next), 4 => Just(ItOp::NextBack), 2 => Just(ItOp::Len), 2 => (0u8..6).prop_map(ItOp::Nth), 1 => (0u8..5).prop_map(ItOp::Rest)];
     (0u16..30, wrap, 0u8..5, proptest::collection::vec(op, 0..40), any::<bool>())
         .prop_map(|(n, wrap, finish, ops, drain)| IterCase { n, wrap, finish, ops, drain })
         .boxed()
@@ -632,6 +699,8 @@ fn iter_strategy(_t: Tier) -> BoxedStrategy<IterCase> {
 #[derive(Debug, Clone, Serialize, Deserialize)]
 pub enum AOp {
     PollRead(u16),
+    /// poll_read into a ReadBuf that already holds `.1` bytes (as read_exact / io::copy do after a short read)
+    PollReadPrefilled(u16, u8),
     PollFillBuf,
     Consume(u16),
     PollWrite(u16),
@@ -692,6 +761,23 @@ fn run_async(c: &AsyncCase) -> CaseResult {
                     v.label_if(r1.filled().len() < *n as usize, "short_transfer");
                 }
                 v.label_if(p1.is_pending(), "pending");
+            }
+            AOp::PollReadPrefilled(n, pre) => {
+                let cap = *n as usize + *pre as usize;
+                let (mut b1, mut b2) = (vec![0u8; cap], vec![0u8; cap]);
+                let (mut r1, mut r2) = (ReadBuf::new(&mut b1), ReadBuf::new(&mut b2));
+                let old: Vec<u8> = (0..*pre).map(|x| 200 + x % 50).collect();
+                r1.put_slice(&old);
+                r2.put_slice(&old);
+                let p1 = Pin::new(&mut wrapped).poll_read(&mut cx, &mut r1).map_err(|e| e.kind());
+                let p2 = Pin::new(&mut plain).poll_read(&mut cx, &mut r2).map_err(|e| e.kind());
+                same!(p1, p2);
+                ensure!(r1.filled() == r2.filled(), "transparency", "{ctx}: data differs");
+                if let Poll::Ready(Ok(())) = p1 {
+                    // only the bytes this call appended were transferred
+                    want += (r1.filled().len() - old.len()) as u64;
+                    v.label_if(*pre > 0 && r1.filled().len() > old.len(), "read_into_partly_filled_buffer");
+                }
             }
             AOp::PollFillBuf => {
                 let p1 = Pin::new(&mut wrapped).poll_fill_buf(&mut cx).map_ok(|b| b.to_vec()).map_err(|e| e.kind());
@@ -761,7 +847,16 @@ fn run_async(c: &AsyncCase) -> CaseResult {
         let mut ps = ScriptStream(c.stream.iter().cloned().collect());
         let mut items = 0u64;
         let mut ended = false;
+        // in a third of the cases the caller abandons the bar while the stream still has items: the
+        // stream must go on yielding (and counting) them
+        let abandon_at = if c.data_len % 3 == 0 { Some(c.data_len as usize % (c.stream.len() + 1)) } else { None };
+        let mut abandoned = false;
         for k in 0..c.stream.len() + 1 {
+            if abandon_at == Some(k) {
+                pb.abandon();
+                abandoned = true;
+                v.label("bar_finished_by_the_caller_mid_stream");
+            }
             let a = Pin::new(&mut ws).poll_next(&mut cx);
             let b = Pin::new(&mut ps).poll_next(&mut cx);
             ensure!(a == b, "transparency", "stream poll #{k}: wrapped {a:?}, plain {b:?}");
@@ -771,7 +866,7 @@ fn run_async(c: &AsyncCase) -> CaseResult {
                 Poll::Pending => {}
             }
             ensure!(pb.position() == items, "count", "stream poll #{k}: position() = {}, {items} items yielded", pb.position());
-            ensure!(pb.is_finished() == ended, "finish", "stream poll #{k}: is_finished() = {}, stream ended = {ended}", pb.is_finished());
+            ensure!(pb.is_finished() == (ended || abandoned), "finish", "stream poll #{k}: is_finished() = {}, stream ended = {ended}, abandoned by the caller = {abandoned}", pb.is_finished());
             if ended {
                 break;
             }
@@ -786,6 +881,7 @@ fn async_strategy(tier: Tier) -> BoxedStrategy<AsyncCase> {
     let n = tier.pick(14, 30);
     let op = prop_oneof![
         4 => (0u16..80).prop_map(AOp::PollRead),
+        2 => (1u16..80, 1u8..40).prop_map(|(n, p)| AOp::PollReadPrefilled(n, p)),
         3 => Just(AOp::PollFillBuf),
         3 => (0u16..=1000).prop_map(AOp::Consume),
         3 => (0u16..80).prop_map(AOp::PollWrite),
@@ -1001,7 +1097,7 @@ pub fn property() -> Property {
                 signature: no_signature,
                 essential: &["exhausted", "partial_consumption", "next_back", "length_differs_from_items"],
                 workers: w,
-                decode: None,
+                decode: Some(decode_iter),
             }),
             Box::new(Gen::<AsyncCase> {
                 name: "async",
@@ -1010,7 +1106,7 @@ pub fn property() -> Property {
                 cases: |t| t.pick(5_000, 250_000),
                 run: run_async,
                 signature: no_signature,
-                essential: &["short_transfer", "pending", "partial_consume", "fill_buf", "stream_items"],
+                essential: &["short_transfer", "pending", "partial_consume", "fill_buf", "stream_items", "read_into_partly_filled_buffer"],
                 workers: w,
                 decode: None,
             }),
